@@ -8,7 +8,7 @@
 EXTENDS Device, Json, IOUtils
 Log == ndJsonDeserialize(IOEnv.TRACE_FILE)
 VARIABLES l, st, bad, dead
-H(e) == [ncomp |-> e.ncomp, deps |-> e.deps, integ |-> e.integ, lens |-> e.lens]
+H(e) == [ncomp |-> e.ncomp, deps |-> e.deps, integ |-> e.integ, lens |-> e.lens, mf |-> e.mf]
 AsSeq(f, h) == [i \in 1..h.ncomp |-> f[i - 1]]
 Judge(s, e) ==
   CASE e.ev = "Header" -> HeaderJudge(s.h)
